@@ -262,10 +262,13 @@ def _convert_timestamp_to_tz_unaware(val):
         arr = val
     else:
         arrow = to_arrow(val)
+        # nulls become NaT, which needs a copy
         if hasattr(arrow, "chunks"):
-            arr = pa.chunked_array([c.to_numpy() for c in arrow.chunks])
+            arr = pa.chunked_array(
+                [c.to_numpy(zero_copy_only=False) for c in arrow.chunks]
+            )
         else:
-            arr = arrow.to_numpy()
+            arr = arrow.to_numpy(zero_copy_only=False)
 
     return arr, orig_type
 
